@@ -289,6 +289,37 @@ func (c *Check) fixedC11() []*plan.Plan {
 		p.Tasks = [][]plan.Op{ops}
 		out = append(out, p)
 	}
+	// (2c) editions: the same article with word-for-word the same metadata and its body in each of three
+	// scripts, one after the other in one process, in both orders, with and without a <title> element
+	{
+		n := 48
+		if c.tier == "thorough" {
+			n = 400
+		}
+		for i := 0; i < n; i++ {
+			fam := gen.EditionFamily(uint64(0xed17+i*7919), 1+i%2, i%4 < 2)
+			if i%8 == 0 {
+				c.noteDoc(fam[0])
+			}
+			p := c.newPlan("history", run, uint64(8000+i), "bubble")
+			run++
+			var ops []plan.Op
+			order := [][]int{{1, 0, 2}, {2, 0, 1}, {0, 1, 2}, {2, 1, 0}}[i%4]
+			for k, fi := range order {
+				d := fam[fi]
+				id := fmt.Sprintf("d%d", k)
+				p.Docs = append(p.Docs, plan.NewDoc(id, d.Bytes, d.Origin))
+				u := d.URL
+				if u == "" {
+					u = "http://example.com/edition"
+				}
+				p.Options = append(p.Options, optWithURL("o"+id, u, uint(i%2), 0))
+				ops = append(ops, plan.Op{Op: "Reader", Doc: id, Opt: "o" + id})
+			}
+			p.Tasks = [][]plan.Op{ops}
+			out = append(out, p)
+		}
+	}
 	// (3a) what the last read of a stream carries: pages small enough to arrive in one read, and pages whose
 	// only non-ASCII bytes come after an ASCII prefix of a size taken from the source's integer literals —
 	// the last bytes together with io.EOF, one byte at a time, and as a file
@@ -461,6 +492,13 @@ func (c *Check) randC11(r *gen.Rand, run int, seed uint64) *plan.Plan {
 				}
 				if r.Bool() {
 					a, b = gen.WithoutTitleElement(a), gen.WithoutTitleElement(b)
+				}
+			case 3:
+				// editions of one article that share their metadata word for word, bodies in other scripts
+				fam := gen.EditionFamily(sa, r.Intn(3), r.Bool())
+				a, b = fam[r.Intn(3)], fam[r.Intn(3)]
+				if a.Origin == b.Origin {
+					b = fam[(r.Intn(2)+1)%3]
 				}
 			}
 			family = []gen.GenDoc{a, b}
